@@ -705,6 +705,33 @@ func TestVerif_C13(t *testing.T) {
 	})
 	r.Exhaustive("every byte value at a mid-label, label-edge, mid-scheme, first-scheme and port-digit position; every domain length 1..300 (with/without trailing dot), every wildcard-base length 1..300, every label length 1..80, every scheme length 1..80, every port 0..100100, all maxima at once")
 
+	// every ordered triple of distinct patterns from one small family on one domain: 2 schemes x {the domain, a subdomain,
+	// arbitrary subdomains} x {no port, a port, any port} - what is listed first, second and third must not matter to the
+	// patterns' own meaning (lesson of seeded change C13-q: a subtree discarded when `*.D:*` arrives after `*.D`)
+	{
+		var fam []string
+		for _, sch := range []string{"http", "https"} {
+			for _, host := range []string{"example.com", "status.example.com", "*.example.com"} {
+				for _, port := range []string{"", ":8080", ":*"} {
+					fam = append(fam, sch+"://"+host+port)
+				}
+			}
+		}
+		r.Parallel(len(fam), func(l *Local) {
+			a := fam[l.Batch]
+			for _, b := range fam {
+				for _, c := range fam {
+					if a == b || a == c || b == c {
+						continue
+					}
+					c13RunList(r, l, []string{a, b, c})
+					l.NontrivialKey(a + " " + b + " " + c)
+					l.counters["family_triples"]++
+				}
+			}
+		})
+	}
+
 	nb := pick(r, 64, 1024)
 	per := pick(r, 1200, 4000)
 	r.Parallel(nb, func(l *Local) {
